@@ -37,6 +37,8 @@ def check(ctx, report):
     rejections.check(ctx, report, 'C08.R6', 'dns')
     key_material(ctx, report)
     rsa_exponent_length(ctx, report)
+    report.rule('C08.R11', 'DSA public key (RFC 2536): T and one common field width of 64 + 8T octets for every size of prime; composed keys read back as the same key')
+    dss_key_round_trip(ctx, report)
     txt_chunks(ctx, report)
     complete_consumption(ctx, report)
     # RRSIG inception / expiration (32 bit seconds) and the DNSKEY flag word go through the shared primitives; RSA exponent and
@@ -388,6 +390,226 @@ def rsa_exponent_length(ctx, report):
                 break
     except (Unsupported, Raised) as e:
         report.add(rule, f.construct + '@tabulation', 'the RSA key composer left the subset the tabulation understands: %s' % e)
+
+
+def rsa_key_round_trip(ctx, report, rule='C08.R5'):
+    """DnsRecordDnskey._parse_public_key_rsa and _compose_public_key_rsa evaluated as a pipeline on RFC 3110 key fields the
+    parser may let through although the composer, which derives every width from the value, has no way to write them back:
+    exponent 0 (zero octets wide: the length octet 0 then announces the three octet form), a zero length three octet form,
+    leading zero octets. Whatever is accepted must be composed to bytes that read as the same numbers."""
+    from ..miniexec import Evaluator, NativeError, Obj, Raised, Unsupported, class_call_hook, exception_values
+    c = ctx.model.cls('DnsRecordDnskey')
+    fp, fc = c.methods.get('_parse_public_key_rsa'), c.methods.get('_compose_public_key_rsa')
+    if fp is None or fc is None:
+        report.error('%s: DnsRecordDnskey._parse_public_key_rsa / _compose_public_key_rsa vanished' % rule)
+        return
+    report.touch(fp)
+
+    class NotEnoughData(NativeError):
+        pass
+
+    class InvalidValueError(NativeError):
+        pass
+    InvalidValueError.__name__ = 'InvalidValue'
+
+    class Parser(Native):
+        def __init__(self, data):
+            self.data, self.parsed_length, self.values = bytes(data), 0, {}
+
+        @property
+        def unparsed_length(self):
+            return len(self.data) - self.parsed_length
+
+        def take(self, n):
+            if self.unparsed_length < n:
+                raise NotEnoughData(n - self.unparsed_length)
+            raw = self.data[self.parsed_length:self.parsed_length + n]
+            self.parsed_length += n
+            return raw
+
+        def parse_numeric(self, name, size, converter=None):
+            self.values[name] = int.from_bytes(self.take(size), 'big')
+
+        def parse_mpint(self, name, length):
+            self.values[name] = int.from_bytes(self.take(length), 'big')
+
+        def __getitem__(self, name):
+            return self.values[name]
+
+    class Composer(Native):
+        def __init__(self):
+            self.out = bytearray()
+
+        def compose_numeric(self, value, size):
+            self.out += int(value).to_bytes(size, 'big')
+
+        def compose_mpint(self, value, length):
+            try:
+                self.out += int(value).to_bytes(length, 'big')
+            except OverflowError:
+                raise InvalidValueError(value)
+    exc = exception_values('InvalidValue', 'NotEnoughData', 'TooMuchData')
+
+    def extra(n, ev):
+        d = ast.unparse(n.func)
+        if d == 'PublicKeyParamsRsa':
+            return Obj(**{k.arg: ev.ev(k.value) for k in n.keywords})
+        if d == 'PublicKey.from_params':
+            return Obj(params=ev.ev(n.args[0]))
+        return exc(n, ev)
+    hook = class_call_hook(c, extra, ctx.model)
+    nh = hook.name_hook_for(c.module, None)
+    pparams = [a.arg for a in fp.node.args.args]
+    cparams = [a.arg for a in fc.node.args.args if a.arg not in ('self', 'cls')]
+    modulus = bytes([0xc1]) * 128
+    KEYS = [(b'\x01\x03' + modulus, 'plain', 'exponent 3'), (b'\x03\x01\x00\x01' + modulus, 'plain', 'exponent 65537'),
+            (b'\x00\x01\x00' + b'\x80' + b'\x00' * 255 + modulus, 'plain', 'an exponent of 256 octets'),
+            (b'\x01\x00' + modulus, 'zero-exponent', 'exponent 0 in one octet'), (b'\x00\x00\x00' + modulus, 'zero-exponent', 'an exponent of no octets (three octet form)'),
+            (b'\x02\x00\x03' + modulus, 'leading-zero', 'exponent 3 in two octets'), (b'\x01\x03\x00' + modulus, 'leading-zero', 'a modulus with a leading zero octet')]
+    problems = {}
+    try:
+        for wire, key, what in KEYS:
+            report.count(rule)
+            try:
+                k1 = Evaluator(dict(zip(pparams, ['cls', Parser(wire)])), hook, nh).function(fp.node)
+            except Raised as e:
+                if key == 'plain':
+                    problems.setdefault(key, 'an RSA key with %s is refused (%s)' % (what, e.what[:60]))
+                continue
+            comp = Composer()
+            try:
+                Evaluator(dict(zip(cparams, [comp, Obj(params=k1.params, key_size=1024)])), hook, nh).function(fc.node)
+            except Raised as e:
+                problems.setdefault(key, 'an RSA key with %s is accepted and cannot be composed (%s)' % (what, e.what[:60]))
+                continue
+            try:
+                k2 = Evaluator(dict(zip(pparams, ['cls', Parser(bytes(comp.out))])), hook, nh).function(fp.node)
+            except Raised as e:
+                problems.setdefault(key, 'an RSA key with %s is accepted and composed as %s..., which is refused (%s)' % (what, bytes(comp.out)[:6].hex(), e.what[:60]))
+                continue
+            a, b = k1.params, k2.params
+            if (a.public_exponent, a.modulus) != (b.public_exponent, b.modulus):
+                problems.setdefault(key, 'an RSA key with %s is composed as %s..., which reads as another key (exponent %d, %d bit modulus)' % (
+                    what, bytes(comp.out)[:6].hex(), b.public_exponent, b.modulus.bit_length()))
+    except Unsupported as e:
+        report.add(rule, fp.construct + '@tabulation', 'the RSA key functions left the subset the tabulation understands: %s' % e)
+        return
+    for key, text in sorted(problems.items()):
+        report.add(rule, '%s@accepted[%s]' % (fp.construct, key), text)
+
+
+def dss_key_round_trip(ctx, report, rule='C08.R11'):
+    """DnsRecordDnskey._parse_public_key_dss and _compose_public_key_dss evaluated as a pipeline (RFC 2536 2: T, Q of 20 octets, then
+    P, G, Y of 64 + 8T octets each): keys whose prime is shorter than its field (leading zero octets), T = 0 and T = 8. The composer
+    has to derive T and one common field width from the numbers; whatever is accepted must be composed to bytes that read as the same key."""
+    from ..miniexec import Evaluator, NativeError, Obj, Raised, Unsupported, class_call_hook, exception_values
+    c = ctx.model.cls('DnsRecordDnskey')
+    fp, fc = c.methods.get('_parse_public_key_dss'), c.methods.get('_compose_public_key_dss')
+    if fp is None or fc is None:
+        report.error('%s: DnsRecordDnskey._parse_public_key_dss / _compose_public_key_dss vanished' % rule)
+        return
+    report.touch(fp)
+
+    class NotEnoughData(NativeError):
+        pass
+
+    class InvalidValueError(NativeError):
+        pass
+    InvalidValueError.__name__ = 'InvalidValue'
+
+    class Parser(Native):
+        def __init__(self, data):
+            self.data, self.parsed_length, self.values = bytes(data), 0, {}
+
+        @property
+        def unparsed_length(self):
+            return len(self.data) - self.parsed_length
+
+        def take(self, n):
+            if self.unparsed_length < n:
+                raise NotEnoughData(n - self.unparsed_length)
+            raw = self.data[self.parsed_length:self.parsed_length + n]
+            self.parsed_length += n
+            return raw
+
+        def parse_numeric(self, name, size, converter=None):
+            self.values[name] = int.from_bytes(self.take(size), 'big')
+
+        def parse_mpint(self, name, length):
+            self.values[name] = int.from_bytes(self.take(length), 'big')
+
+        def __getitem__(self, name):
+            return self.values[name]
+
+    class Composer(Native):
+        def __init__(self):
+            self.out = bytearray()
+
+        def compose_numeric(self, value, size):
+            self.out += int(value).to_bytes(size, 'big')
+
+        def compose_mpint(self, value, length):
+            try:
+                self.out += int(value).to_bytes(length, 'big')
+            except OverflowError:
+                raise InvalidValueError(value)
+    exc = exception_values('InvalidValue', 'NotEnoughData', 'TooMuchData')
+
+    def extra(n, ev):
+        d = ast.unparse(n.func)
+        if d == 'PublicKeyParamsDsa':
+            return Obj(**{k.arg: ev.ev(k.value) for k in n.keywords})
+        if d == 'PublicKey.from_params':
+            return Obj(params=ev.ev(n.args[0]))
+        return exc(n, ev)
+    hook = class_call_hook(c, extra, ctx.model)
+    nh = hook.name_hook_for(c.module, None)
+    pparams = [a.arg for a in fp.node.args.args]
+    cparams = [a.arg for a in fc.node.args.args if a.arg not in ('self', 'cls')]
+    import math
+
+    def fields(t, p_octets):
+        n = 64 + 8 * t
+        p = (b'\x00' * (n - p_octets) + b'\xd5' * p_octets)
+        # generator and public value are residues modulo the prime: shorter than it
+        return bytes([t]) + b'\x11' * 20 + p + (b'\x22' * (p_octets - 1)).rjust(n, b'\x00') + (b'\x33' * (p_octets - 2)).rjust(n, b'\x00')
+    KEYS = [(fields(0, 64), 'plain', 'T = 0 and a prime of 64 octets'), (fields(1, 72), 'plain', 'T = 1 and a prime of 72 octets'), (fields(8, 128), 'plain', 'T = 8 and a prime of 128 octets'),
+            (fields(1, 71), 'short-prime', 'T = 1 and a prime of 71 octets'), (fields(2, 70), 'short-prime', 'T = 2 and a prime of 70 octets'),
+            (fields(0, 60), 'short-prime', 'T = 0 and a prime of 60 octets')]
+    def bit_size(prime):
+        # asn1crypto: ceil(log2(p)), rounded up to a multiple of 8
+        bits = int(math.ceil(math.log(prime, 2)))
+        return bits + (-bits % 8)
+    problems = {}
+    try:
+        for wire, key, what in KEYS:
+            report.count(rule)
+            try:
+                k1 = Evaluator(dict(zip(pparams, ['cls', Parser(wire)])), hook, nh).function(fp.node)
+            except Raised as e:
+                if key == 'plain':
+                    problems.setdefault(key, 'a DSA key with %s is refused (%s)' % (what, e.what[:60]))
+                continue
+            comp = Composer()
+            try:
+                Evaluator(dict(zip(cparams, [comp, Obj(params=k1.params, key_size=bit_size(k1.params.prime))])), hook, nh).function(fc.node)
+            except Raised as e:
+                problems.setdefault(key, 'a DSA key with %s is accepted and cannot be composed (%s)' % (what, e.what[:60]))
+                continue
+            try:
+                k2 = Evaluator(dict(zip(pparams, ['cls', Parser(bytes(comp.out))])), hook, nh).function(fp.node)
+            except Raised as e:
+                problems.setdefault(key, 'a DSA key with %s is accepted and composed as %s..., which is refused (%s)' % (what, bytes(comp.out)[:6].hex(), e.what[:60]))
+                continue
+            a, b = k1.params, k2.params
+            if (a.prime, a.generator, a.order, a.public_key_value) != (b.prime, b.generator, b.order, b.public_key_value):
+                problems.setdefault(key, 'a DSA key with %s is composed as %s..., which reads as another key (%d bit prime)' % (
+                    what, bytes(comp.out)[:6].hex(), b.prime.bit_length()))
+    except Unsupported as e:
+        report.add(rule, fp.construct + '@tabulation', 'the DSA key functions left the subset the tabulation understands: %s' % e)
+        return
+    for key, text in sorted(problems.items()):
+        report.add(rule, '%s@accepted[%s]' % (fp.construct, key), text)
 
 
 def txt_chunks(ctx, report, rule='C08.R7'):
